@@ -11,7 +11,7 @@ RULE = ("breadth-first enumeration of all event histories over the scenario menu
 ASSUMPTIONS = ["no G28 / G92 X/Y/Z / M206 while an episode is open (the property's premise)",
                "positions compared with an absolute tolerance of 1e-6 mm"]
 
-MOVES = [("TRAVEL", "O2"), ("TRAVEL", "I1"), ("TRAVEL", "O1"), ("PRINT", "I2"), ("PRINT", "O2"),
+MOVES = [("TRAVEL", "O2"), ("TRAVEL", "I1"), ("TRAVEL", "O1"), ("TRAVEL", "Org"), ("YONLY", "I1"), ("PRINT", "I2"), ("PRINT", "O2"),
          ("TRAVELZ", "I1", 2), ("TRAVELZ", "O2", 2), ("TRAVELZ", "I2", 1), ("ZMOVE", 2), ("ZMOVE", 1)]
 
 
